@@ -56,6 +56,13 @@ def degenerate_queries(rng, wj, sph):
                 u = u / 111e3
             mx, my = (cs[0][0] + cs[1][0]) / 2, (cs[0][1] + cs[1][1]) / 2
             at("slab tip", mx + u * nx, my + u * ny, lo + v)
+        if not line and len(cs) >= 3:
+            # interior points exactly at the top and bottom of the feature
+            cx, cy = sum(c[0] for c in cs) / len(cs), sum(c[1] for c in cs) / len(cs)
+            for v in cs[:3]:
+                for tt in (0.0, 0.3, 0.7):
+                    for d in (lo, hi, 0.0):
+                        at("interior at the feature's own depth limits", cx + tt * (v[0] - cx), cy + tt * (v[1] - cy), d)
         if f["model"] == "plume":
             for c in cs:
                 for d in (lo, lo + 1.0, hi):
@@ -109,6 +116,27 @@ def run(chk):
     for wi in range(60 if quick else 400):
         sph = rng.random() < 0.45
         wj, sph = any_world(rng, spherical=sph, lines=0.5, allow_mass_conserving=True)
+        # degenerate but valid parameter values: zero-thickness features, depth surfaces that pinch out, cooling models
+        # with parameters at the ends of their documented ranges
+        for f in wj["features"]:
+            if f["model"] in ("continental plate", "oceanic plate", "mantle layer") and rng.random() < 0.3:
+                tm = [m for m in f.get("temperature models", []) if m["model"] == "linear"]
+                if not tm:
+                    f.setdefault("temperature models", []).append({"model": "linear", "max depth": 2e5, "top temperature": rng.choice([293.15, -1]),
+                                                                   "bottom temperature": rng.choice([1500.0, -1])})
+                u = rng.random()
+                if u < 0.5:
+                    D = float(round(rng.uniform(0, 1e5))) if rng.random() < 0.7 else 0.0
+                    f["min depth"], f["max depth"] = D, D
+                else:
+                    c = f["coordinates"]
+                    f["min depth"] = 0.0
+                    f["max depth"] = [[float(round(rng.uniform(5e4, 2e5)))], [0.0, [list(c[0]), list(c[1]), list(c[2])][:rng.randint(1, 3)]]]
+            if f["model"] == "subducting plate":
+                for m in f.get("temperature models", []) + [m for sg in f["segments"] for m in sg.get("temperature models", [])]:
+                    if m.get("model") == "mass conserving" and rng.random() < 0.6:
+                        k = rng.choice(["forearc cooling factor", "taper distance", "coupling depth", "min distance slab top", "thermal conductivity"])
+                        m[k] = rng.choice([0.0, 0.0, 1e-30, 1e30]) if k != "min distance slab top" else 0.0
         sanitize_numbers(wj)
         path = os.path.join(wdir, "w%d.wb" % wi)
         json.dump(wj, open(path, "w"))
@@ -158,6 +186,14 @@ def run(chk):
             if k != "random" and k != "random 2d" and v[-4] >= 0:
                 chk.nontriv((wi, i))
             bad = [j for j, x in enumerate(v) if not math.isfinite(x)]
+            if bad == [0] and meta[i][3] == "3d":
+                # known finding D27: the background adiabat Tp*exp(alpha*g*depth/cp) overflows binary64 when
+                # alpha*g*depth/cp exceeds 709.78 (only for depths of many planetary radii)
+                al, cp_ = wj.get("thermal expansion coefficient", 3.5e-5), wj.get("specific heat", 1250)
+                gr = wj.get("gravity model", {}).get("magnitude", 9.81)
+                if al * gr * meta[i][2] / cp_ > 709.0 and chk.known("D27", "adiabat overflow at absurd depth"):
+                    chk.count("known finding D27 (adiabat overflow beyond alpha*g*depth/cp = 709)")
+                    continue
             if bad:
                 viol.append(("a query at a finite point returns a non-finite number (entry %d = %s) - %s" % (bad[0], v[bad[0]], k),
                              {"kind": "p3", "world": wj, "slot": 0, "probe_line": lines[i], "location": k, "answer": a}))
